@@ -80,6 +80,11 @@ func pwDomain(name string, r *rng, tier string) []string {
 				continue
 			}
 		}
+		if name == "nthash" && (n == 64 || n == 65 || n == 127 || n == 128) {
+			// the limit counts UTF-16 units, not bytes and not characters: n two-byte and three-byte characters (n units),
+			// and n/2 supplementary characters framed by ASCII (n units)
+			out = append(out, strings.Repeat("é", n), strings.Repeat("€", n), strings.Repeat("密", n-1)+"x", "x"+strings.Repeat("\U0001F600", (n-1)/2)+strings.Repeat("y", (n-1)%2))
+		}
 		if name == "nthash" {
 			out = append(out, r.str(n, "abcXYZ019 !")) // ASCII: one UTF-16 unit per byte
 			// supplementary-plane characters take two UTF-16 units (a surrogate pair) each
@@ -94,6 +99,12 @@ func pwDomain(name string, r *rng, tier string) []string {
 		out = append(out, r.str(n, "abcXYZ019 !"))
 		if n > 0 && n%8 != 3 {
 			out = append(out, string(r.bytes(n)))
+		}
+		// a multi-byte character straddling the byte positions where schemes cut or fold the password (8, 72, 255)
+		if n == 9 || n == 73 || n == 256 {
+			if !(name == "sunmd5" && n > 255) {
+				out = append(out, strings.Repeat("a", n-3)+"€"+"b", strings.Repeat("a", n-2)+"é")
+			}
 		}
 	}
 	return out
@@ -122,7 +133,7 @@ func corrSchemes(prop, outDir string, seed uint64, tier string) *report {
 		pws := pwDomain(s.name, r, tier)
 		for i, pw := range pws {
 			for k := 0; k < 2; k++ {
-				if prop == "C02" && (i%6 != 0 || k > 0) {
+				if prop == "C02" && (i%6 != 0 && !strings.HasSuffix(pw, "€b") && !strings.HasSuffix(pw, "aé") || k > 0) {
 					continue
 				}
 				stream := r.bytes(40)
@@ -390,7 +401,7 @@ func c02Cases(rep *report, r *rng, sink *checkCaseSink, s *schemeOps, h, pw stri
 	}
 	for i := 0; i < len(b) && i < 80; i++ {
 		for bit := 0; bit < 8; bit++ {
-			if tier != "thorough" && ((bit+i)%3 != 0 || i >= 24 && i < len(b)-8 && i%4 != 0) {
+			if tier != "thorough" && ((bit+i)%3 != 0 && !(i >= 66 && i <= 73) && i != 7 && i != 8 || i >= 24 && i < len(b)-8 && i%4 != 0 && !(i >= 66 && i <= 73)) {
 				continue
 			}
 			p2 := append([]byte(nil), b...)
@@ -423,6 +434,16 @@ func c02Cases(rep *report, r *rng, sink *checkCaseSink, s *schemeOps, h, pw stri
 			continue
 		}
 		never(e+h[lo:], pw, "cost_neighbour_edit", false)
+	}
+	// one symbol inserted or deleted before the digest (a salt or cost of another length): Key may reject it, the
+	// string may be malformed, or another digest results -- never success
+	for i := 1; i <= lo; i++ {
+		for _, c := range []byte{'a', '1', '.'} {
+			never(h[:i]+string(c)+h[i:], pw, "salt_or_cost_insertion", i%3 == 0)
+		}
+		if i < lo {
+			never(h[:i]+h[i+1:], pw, "salt_or_cost_deletion", i%3 == 0)
+		}
 	}
 	// salt / cost edits: every position before the digest, replaced by another symbol of the same class
 	for i := 0; i < lo; i++ {
